@@ -293,11 +293,11 @@ impl Prop for C18 {
         "cases = client identification strings 'SSH-' ('2.0'|'1.99') [0-9.]* '-' software [SP comment] CR LF [tail] with software 1..79 and comment 0..79 arbitrary bytes (NUL, high bytes, lone CR at every position, bare LF; SP switches to the comment), over UDP and over one segment of a handshaken TCP flow, both IP versions, log levels Off..Trace; negatives: every CR LF pair removed (nothing / LF only / trailing lone CR / LF LF), a character other than digit, dot or dash in the version field, missing second dash; Gh0st magic + 0..299 arbitrary bytes, Gh0st header with consistent / lying length fields, and real client packets (header + zlib stream of a command token followed by 0..419 structure bytes, login token 0x66 weighted, compression levels 0..9). Flows: a valid identification string followed on the same TCP flow by 1..4 segments that hold no CR and no LF (binary packets with KEXINIT-like framing, text, 'SSH-2.0-...' without line end), or an unterminated first segment followed by the same: only the identification string may be answered with an SSH banner. Gh0st connections: 2..3 packets, one per segment of one connection, each answered with a valid frame. Oracle: positive => application reply exactly 'SSH-2.0-1\\r\\n'; negative => none; Gh0st => reply starts with the magic, LE32 at offset 5 = frame length, LE32 at offset 9 = U, zlib-inflating the remainder (flate2's decoder, whole input consumed) yields exactly U bytes. Non-trivial = every case; distinct by hash of (bytes, transport)."
     }
     fn run(&self, ctx: &mut RunCtx) {
-        let n = ctx.share(ctx.tier.n(800_000, 10_000_000));
+        let n = ctx.share(ctx.tier.n(2_000_000, 16_000_000));
         ctx.run_generated("banner", n, case_strategy(), check);
-        let m = ctx.share(ctx.tier.n(200_000, 3_000_000));
+        let m = ctx.share(ctx.tier.n(600_000, 5_000_000));
         ctx.run_generated("flow", m, flow_strategy(), flow_check);
-        let g = ctx.share(ctx.tier.n(100_000, 1_500_000));
+        let g = ctx.share(ctx.tier.n(300_000, 3_000_000));
         ctx.run_generated("gh0st-flow", g, (scenario_levels(Fam::Any), port(), port(), vec(ghost_req(), 2..=3)).prop_map(|(scn, sport, dport, pkts)| GhostFlow { scn, sport, dport, pkts }), ghost_flow_check);
     }
     fn replay(&self, stream: &str, case: &Value, st: &mut Stats) -> Check {
